@@ -45,6 +45,10 @@ def check(model: Model, rep: Report, tier: str):
         share_rule(rep, model, _k1_k2, "C08.S5", "exporting before or after nesting / unrolling gives the same instructions: every operation class's copy() keeps "
                    "all its fields, in particular the record offsets of detector / observable annotations (= C05.K1/K2)")
     from .c01 import r7
+    from .c06 import u5 as _u5
+    with rep.isolated():
+        share_rule(rep, model, _u5, "C08.S8", "the count the exporter multiplies a block by is the count in force when it exports: nr_of_repetitions (and everything unrolling reads) "
+                   "is computed on every read, not memoised (= C06.U5); a cached count survives apply_modifiers resetting the strategy and a changed registry")
     with rep.isolated():
         share_rule(rep, model, r7, "C08.S6", "the exporter multiplies a repeated block by its count and unrolling appends count-1 copies: both give the same instructions only "
                    "if extend() appends every node of each copy, whatever the block holds -- zero-length annotations included (= C01.R7 extend)",
